@@ -133,6 +133,17 @@ func (vc *VC) call(fr *Frame, st *State, instr *ssa.Call, c *ssa.CallCommon) {
 				}
 			}
 		}
+		if prm, ok := c.Value.(*ssa.Parameter); ok && prm.Parent() == fr.fn {
+			// call through a function-typed parameter: contract keyed <function>#<parameter>
+			key := vc.eng.funcKey(fr.fn) + "#" + prm.Name()
+			if con := vc.eng.contractsByKey[key]; con != nil {
+				vc.dynSig = sig
+				rs := vc.applyContract(fr, st, con, nil, nil, append([]Term{NilP}, args...), types.Typ[types.UntypedNil], pos)
+				vc.setResults(fr, instr, rs)
+				vc.assumed["function-typed parameter "+key+" is assumed to satisfy its contract (an obligation on callers that is not checked here)"] = true
+				return
+			}
+		}
 		if key, base, ok := vc.funcFieldKey(c.Value); ok {
 			if con := vc.eng.contractsByKey[key]; con != nil {
 				vc.dynSig = sig
